@@ -5,7 +5,7 @@ use crate::logic::*;
 use palette::encoding::{Linear, Srgb};
 use palette::white_point::D65;
 use palette::{
-    Alpha, Clamp, ClampAssign, Darken, DarkenAssign, Desaturate, DesaturateAssign, Hsl, Hsv, Hwb, Lab, Lch, Lighten, LightenAssign,
+    Xyz,     Alpha, Clamp, ClampAssign, Darken, DarkenAssign, Desaturate, DesaturateAssign, Hsl, Hsv, Hwb, Lab, Lch, Lighten, LightenAssign,
     LinSrgb, Mix, MixAssign, Okhwb, Oklab, Oklch, Saturate, SaturateAssign, SetHue, ShiftHue, ShiftHueAssign, WithHue,
 };
 
@@ -156,6 +156,51 @@ increase!(c10_saturate_hsv, Hsv<Srgb, T>, "Hsv", saturation, 0.0, 1.0, Saturate:
 increase!(c10_saturate_hsl, Hsl<Srgb, T>, "Hsl", saturation, 0.0, 1.0, Saturate::saturate/saturate_fixed, SaturateAssign::saturate_assign/saturate_fixed_assign,
     Desaturate::desaturate/desaturate_fixed, DesaturateAssign::desaturate_assign, others [lightness], |c, x1: T, _x2, h| Hsl::new(h, c, x1));
 
+increase!(c10_lighten_xyz_x, Xyz<D65, T>, "Xyz (x)", x, 0.0, 0.95047, Lighten::lighten/lighten_fixed, LightenAssign::lighten_assign/lighten_fixed_assign,
+    Darken::darken/darken_fixed, DarkenAssign::darken_assign, others [], |c, x1: T, x2: T, _h| Xyz::new(c, x1, x2));
+increase!(c10_lighten_xyz_y, Xyz<D65, T>, "Xyz (y)", y, 0.0, 1.0, Lighten::lighten/lighten_fixed, LightenAssign::lighten_assign/lighten_fixed_assign,
+    Darken::darken/darken_fixed, DarkenAssign::darken_assign, others [], |c, x1: T, x2: T, _h| Xyz::new(x1 * T::k(0.95), c, x2));
+increase!(c10_lighten_xyz_z, Xyz<D65, T>, "Xyz (z)", z, 0.0, 1.08883, Lighten::lighten/lighten_fixed, LightenAssign::lighten_assign/lighten_fixed_assign,
+    Darken::darken/darken_fixed, DarkenAssign::darken_assign, others [], |c, x1: T, x2: T, _h| Xyz::new(x1 * T::k(0.95), x2, c));
+increase!(c10_lighten_rgb_r, LinSrgb<T>, "Rgb (red)", red, 0.0, 1.0, Lighten::lighten/lighten_fixed, LightenAssign::lighten_assign/lighten_fixed_assign,
+    Darken::darken/darken_fixed, DarkenAssign::darken_assign, others [], |c, x1: T, x2: T, _h| LinSrgb::new(c, x1, x2));
+increase!(c10_lighten_rgb_g, LinSrgb<T>, "Rgb (green)", green, 0.0, 1.0, Lighten::lighten/lighten_fixed, LightenAssign::lighten_assign/lighten_fixed_assign,
+    Darken::darken/darken_fixed, DarkenAssign::darken_assign, others [], |c, x1: T, x2: T, _h| LinSrgb::new(x1, c, x2));
+increase!(c10_lighten_rgb_b, LinSrgb<T>, "Rgb (blue)", blue, 0.0, 1.0, Lighten::lighten/lighten_fixed, LightenAssign::lighten_assign/lighten_fixed_assign,
+    Darken::darken/darken_fixed, DarkenAssign::darken_assign, others [], |c, x1: T, x2: T, _h| LinSrgb::new(x1, x2, c));
+increase!(c10_lighten_luma, palette::luma::Luma<Srgb, T>, "Luma", luma, 0.0, 1.0, Lighten::lighten/lighten_fixed, LightenAssign::lighten_assign/lighten_fixed_assign,
+    Darken::darken/darken_fixed, DarkenAssign::darken_assign, others [], |c, _x1: T, _x2: T, _h| palette::luma::Luma::new(c));
+increase!(c10_lighten_yxy, palette::Yxy<D65, T>, "Yxy", luma, 0.0, 1.0, Lighten::lighten/lighten_fixed, LightenAssign::lighten_assign/lighten_fixed_assign,
+    Darken::darken/darken_fixed, DarkenAssign::darken_assign, others [x, y], |c, x1: T, x2: T, _h| palette::Yxy::new(x1 * T::k(0.7), x2 * T::k(0.7), c));
+increase!(c10_lighten_luv, palette::Luv<D65, T>, "Luv", l, 0.0, 100.0, Lighten::lighten/lighten_fixed, LightenAssign::lighten_assign/lighten_fixed_assign,
+    Darken::darken/darken_fixed, DarkenAssign::darken_assign, others [u, v], |c, x1: T, x2: T, _h| palette::Luv::new(c, (x1 - T::k(0.5)) * T::k(160.0), (x2 - T::k(0.5)) * T::k(200.0)));
+increase!(c10_lighten_lchuv, palette::Lchuv<D65, T>, "Lchuv", l, 0.0, 100.0, Lighten::lighten/lighten_fixed, LightenAssign::lighten_assign/lighten_fixed_assign,
+    Darken::darken/darken_fixed, DarkenAssign::darken_assign, others [chroma], |c, x1: T, _x2: T, h| palette::Lchuv::new(c, x1 * T::k(180.0), h));
+increase!(c10_lighten_oklch, Oklch<T>, "Oklch", l, 0.0, 1.0, Lighten::lighten/lighten_fixed, LightenAssign::lighten_assign/lighten_fixed_assign,
+    Darken::darken/darken_fixed, DarkenAssign::darken_assign, others [chroma], |c, x1: T, _x2: T, h| Oklch::new(c, x1 * T::k(0.4), h));
+increase!(c10_lighten_okhsl, palette::Okhsl<T>, "Okhsl", lightness, 0.0, 1.0, Lighten::lighten/lighten_fixed, LightenAssign::lighten_assign/lighten_fixed_assign,
+    Darken::darken/darken_fixed, DarkenAssign::darken_assign, others [saturation], |c, x1: T, _x2: T, h| palette::Okhsl::new(h, x1, c));
+increase!(c10_lighten_okhsv, palette::Okhsv<T>, "Okhsv", value, 0.0, 1.0, Lighten::lighten/lighten_fixed, LightenAssign::lighten_assign/lighten_fixed_assign,
+    Darken::darken/darken_fixed, DarkenAssign::darken_assign, others [saturation], |c, x1: T, _x2: T, h| palette::Okhsv::new(h, x1, c));
+increase!(c10_lighten_hsluv, palette::Hsluv<D65, T>, "Hsluv", l, 0.0, 100.0, Lighten::lighten/lighten_fixed, LightenAssign::lighten_assign/lighten_fixed_assign,
+    Darken::darken/darken_fixed, DarkenAssign::darken_assign, others [saturation], |c, x1: T, _x2: T, h| palette::Hsluv::new(h, x1 * T::k(100.0), c));
+increase!(c10_lighten_cam16_jab, palette::cam16::Cam16UcsJab<T>, "Cam16UcsJab", lightness, 0.0, 100.0, Lighten::lighten/lighten_fixed, LightenAssign::lighten_assign/lighten_fixed_assign,
+    Darken::darken/darken_fixed, DarkenAssign::darken_assign, others [a, b], |c, x1: T, x2: T, _h| palette::cam16::Cam16UcsJab::new(c, (x1 - T::k(0.5)) * T::k(100.0), (x2 - T::k(0.5)) * T::k(100.0)));
+increase!(c10_lighten_cam16_jmh, palette::cam16::Cam16UcsJmh<T>, "Cam16UcsJmh", lightness, 0.0, 100.0, Lighten::lighten/lighten_fixed, LightenAssign::lighten_assign/lighten_fixed_assign,
+    Darken::darken/darken_fixed, DarkenAssign::darken_assign, others [colorfulness], |c, x1: T, _x2: T, h| palette::cam16::Cam16UcsJmh::new(c, x1 * T::k(50.0), h));
+increase!(c10_saturate_lch, Lch<D65, T>, "Lch", chroma, 0.0, 128.0, Saturate::saturate/saturate_fixed, SaturateAssign::saturate_assign/saturate_fixed_assign,
+    Desaturate::desaturate/desaturate_fixed, DesaturateAssign::desaturate_assign, others [l], |c, x1: T, _x2: T, h| Lch::new(x1 * T::k(100.0), c, h));
+increase!(c10_saturate_lchuv, palette::Lchuv<D65, T>, "Lchuv", chroma, 0.0, 180.0, Saturate::saturate/saturate_fixed, SaturateAssign::saturate_assign/saturate_fixed_assign,
+    Desaturate::desaturate/desaturate_fixed, DesaturateAssign::desaturate_assign, others [l], |c, x1: T, _x2: T, h| palette::Lchuv::new(x1 * T::k(100.0), c, h));
+increase!(c10_saturate_hsluv, palette::Hsluv<D65, T>, "Hsluv", saturation, 0.0, 100.0, Saturate::saturate/saturate_fixed, SaturateAssign::saturate_assign/saturate_fixed_assign,
+    Desaturate::desaturate/desaturate_fixed, DesaturateAssign::desaturate_assign, others [l], |c, x1: T, _x2: T, h| palette::Hsluv::new(h, c, x1 * T::k(100.0)));
+increase!(c10_saturate_okhsl, palette::Okhsl<T>, "Okhsl", saturation, 0.0, 1.0, Saturate::saturate/saturate_fixed, SaturateAssign::saturate_assign/saturate_fixed_assign,
+    Desaturate::desaturate/desaturate_fixed, DesaturateAssign::desaturate_assign, others [lightness], |c, x1: T, _x2: T, h| palette::Okhsl::new(h, c, x1));
+increase!(c10_saturate_okhsv, palette::Okhsv<T>, "Okhsv", saturation, 0.0, 1.0, Saturate::saturate/saturate_fixed, SaturateAssign::saturate_assign/saturate_fixed_assign,
+    Desaturate::desaturate/desaturate_fixed, DesaturateAssign::desaturate_assign, others [value], |c, x1: T, _x2: T, h| palette::Okhsv::new(h, c, x1));
+increase!(c10_saturate_cam16_jmh, palette::cam16::Cam16UcsJmh<T>, "Cam16UcsJmh", colorfulness, 0.0, 50.0, Saturate::saturate/saturate_fixed, SaturateAssign::saturate_assign/saturate_fixed_assign,
+    Desaturate::desaturate/desaturate_fixed, DesaturateAssign::desaturate_assign, others [lightness], |c, x1: T, _x2: T, h| palette::cam16::Cam16UcsJmh::new(x1 * T::k(100.0), c, h));
+
 macro_rules! lighten_hwb {
     ($name:ident, $ty:ty, $what:expr, $ctor:expr) => {
         program!($name, "C10", "quick", sv,
@@ -279,7 +324,7 @@ program!(c10_arithmetic_variants, "C10", "quick", sv,
 });
 
 pub fn all() -> Vec<crate::Prog> {
-    vec![c10_mix_rgb::prog(), c10_mix_lab::prog(), c10_mix_oklab::prog(), c10_mix_hsv::prog(), c10_mix_hsl::prog(), c10_mix_lch::prog(),
+    vec![c10_lighten_xyz_x::prog(), c10_lighten_xyz_y::prog(), c10_lighten_xyz_z::prog(), c10_lighten_rgb_r::prog(), c10_lighten_rgb_g::prog(), c10_lighten_rgb_b::prog(), c10_lighten_luma::prog(), c10_lighten_yxy::prog(), c10_lighten_luv::prog(), c10_lighten_lchuv::prog(), c10_lighten_oklch::prog(), c10_lighten_okhsl::prog(), c10_lighten_okhsv::prog(), c10_lighten_hsluv::prog(), c10_lighten_cam16_jab::prog(), c10_lighten_cam16_jmh::prog(), c10_saturate_lch::prog(), c10_saturate_lchuv::prog(), c10_saturate_hsluv::prog(), c10_saturate_okhsl::prog(), c10_saturate_okhsv::prog(), c10_saturate_cam16_jmh::prog(), c10_mix_rgb::prog(), c10_mix_lab::prog(), c10_mix_oklab::prog(), c10_mix_hsv::prog(), c10_mix_hsl::prog(), c10_mix_lch::prog(),
          c10_mix_hwb::prog(), c10_mix_oklch::prog(), c10_lighten_hsv::prog(), c10_lighten_hsl::prog(), c10_lighten_lab::prog(),
          c10_lighten_lch::prog(), c10_lighten_oklab::prog(), c10_saturate_hsv::prog(), c10_saturate_hsl::prog(),
          c10_lighten_hwb::prog(), c10_lighten_okhwb::prog(), c10_hue_ops::prog(), c10_arithmetic_variants::prog()]
